@@ -186,6 +186,7 @@ func (e *enc) syncCall(ins ssa.Instruction, key string, args []string, argVals [
 		}
 		e.interference()
 		e.setHeld("G_held", m, true)
+		e.lockStates = append(e.lockStates, e.heap.clone())
 		e.lockUses = append(e.lockUses, lockUse{m, "G_held"})
 	case "unlock":
 		e.addI("lock", "unlock-held", ins, R, held())
@@ -195,6 +196,7 @@ func (e *enc) syncCall(ins ssa.Instruction, key string, args []string, argVals [
 		e.addI("lock", "no-self-deadlock", ins, R, fmt.Sprintf("(not %s)", held()))
 		e.interference()
 		e.setHeld("G_rheld", m, true)
+		e.lockStates = append(e.lockStates, e.heap.clone())
 		e.lockUses = append(e.lockUses, lockUse{m, "G_rheld"})
 	case "runlock":
 		e.addI("lock", "unlock-held", ins, R, rheld())
